@@ -681,3 +681,92 @@ def c13_sender_cases(tier, rng):
             fin = rng.choice([None, None, 0, cfg.check_ms // 2, cfg.check_ms - 1])
             txs.append((rng.choice([0, 3, 5, 9]), fin, rng.choice([0, cfg.check_ms // 2, cfg.check_ms, 3 * cfg.check_ms, 20000])))
         yield SenderClosureCase(cfg, txs)
+
+
+# ------------------------------------------------------------------ C13 / C01: a prefix whose CRC collides with the whole file
+def colliding_tail(cktype, prefix: bytes) -> bytes:
+    """4 bytes T such that checksum(prefix + T) == checksum(prefix) for the CRC types (CRC is affine over GF(2) in T)."""
+    def crc(b):
+        return int.from_bytes(c09.expected(cktype, b), "big")
+    target = crc(prefix)
+    base = crc(prefix + bytes(4))
+    cols = []
+    for bit in range(32):
+        t = (1 << bit).to_bytes(4, "big")
+        cols.append(crc(prefix + t) ^ base)
+    # solve  XOR_{bit in S} cols[bit] = target ^ base  by Gaussian elimination over GF(2)
+    want = target ^ base
+    pivots = {}                    # highest set bit -> (vector, mask of the unknowns combined into it)
+    for b in range(32):
+        v, m = cols[b], 1 << b
+        while v:
+            hb = v.bit_length() - 1
+            if hb in pivots:
+                pv, pm = pivots[hb]
+                v ^= pv; m ^= pm
+            else:
+                pivots[hb] = (v, m)
+                break
+    sol = 0
+    while want:
+        hb = want.bit_length() - 1
+        assert hb in pivots
+        pv, pm = pivots[hb]
+        want ^= pv; sol ^= pm
+    t = sol.to_bytes(4, "big")
+    assert crc(prefix + t) == target
+    return t
+
+
+class CollidingPrefixCase(LateDataCase):
+    """Unacknowledged transfer of a file whose first part has the same CRC as the whole file; the EOF overtakes the rest."""
+
+    def __init__(self, cfg: Cfg, prefix: bytes, slot):
+        super().__init__(cfg, 2, [1], [slot], tail=0)
+        self.prefix = prefix
+
+    def run(self):
+        cfg = self.cfg
+        w = World(cfg, "c13c")
+        try:
+            d = w.dst
+            seg = cfg.max_seg
+            data = self.prefix + colliding_tail(cfg.cktype, self.prefix)
+            size = len(data)
+            self.data = data
+            h = campaign._hdr(cfg, 0, 5)
+
+            def deliver(ints):
+                d.sm(codec.reparse(codec.build_pdu(ints, w.pm)))
+                while d.get() is not None:
+                    pass
+            deliver(campaign.pdu_ints(codec.K_MD, h, [int(cfg.closure), cfg.cktype, size, 1, 1, 1, 1, 2, 0]))
+            deliver(campaign.pdu_ints(codec.K_FD, h, [0, seg] + list(data[:seg])))
+            deliver(campaign.pdu_ints(codec.K_EOF, h, [0] + list(c09.expected(cfg.cktype, data)) + [size, 0, 0, 0]))
+            expiries = 0
+            late_sent = False
+            while expiries <= cfg.check_limit + 1 and d.h.state.value == 1:
+                if not late_sent and expiries >= self.slots[0]:
+                    deliver(campaign.pdu_ints(codec.K_FD, h, [seg, size - seg] + list(data[seg:])))
+                    late_sent = True
+                    if d.h.state.value != 1:
+                        break
+                w.advance(cfg.check_ms)
+                d.sm(None)
+                while d.get() is not None:
+                    pass
+                expiries += 1
+            d.snapshot_file([2])
+            self.sides = [("dest", d.ops, d.obs)]
+            return self
+        finally:
+            w.close()
+
+
+def c13_collision_cases(tier, rng):
+    for ck in (2, 3):
+        for L in (1, 2, 3):
+            for slot in range(0, L + 2):
+                for closure in (False, True):
+                    cfg = Cfg(mode=1, closure=closure, check_limit=L, max_seg=4, cktype=ck, check_ms=1000)
+                    yield CollidingPrefixCase(cfg, bytes(rng.getrandbits(8) for _ in range(4)), slot)
